@@ -63,6 +63,13 @@ def decCalls : SExp → List (String × Nat × Nat × String)
 
 def viewOf (f : Filter) (m : Items Key Obj) : List Obj := (itemsList m).filter (accStd f)
 
+/-- the accepted server content after each prefix of the history (index j = after the first j changes) -/
+def prefixViews (f : Filter) (h : List (Int × EvT × Obj)) : List (List Obj) :=
+  let step := fun (acc : Items Key Obj × List (List Obj)) (e : Int × EvT × Obj) =>
+    let m := serverApply acc.1 e.2.1 e.2.2
+    (m, viewOf f m :: acc.2)
+  ((h.foldl step ([], [viewOf f []])).2).reverse
+
 def ctrlLine (st : KState) (e : SExp) : KState × String :=
   match e with
   | .list [.atom "scenario", _, _] => ({}, "ok")
@@ -172,15 +179,17 @@ def ctrlLine (st : KState) (e : SExp) : KState × String :=
         -- C03/C04: the cache is the accepted server state at some point of the history, never going backwards;
         -- with a live watch (or right after a complete list of the current state) it is the current state
         let listedNow := newLists.any (fun l => l.2.2.2 == toString (rvAt st.history n)) || (n == 0 && !newLists.isEmpty)
+        let views := prefixViews st.filter st.history
+        let viewAt (j : Nat) : List Obj := views.getD j []
         let candidates0 := (List.range (n + 1)).filter (fun j => j ≥ st.applied &&
-          sameObjSet (unspoil cache) (unspoil (viewOf st.filter (stateAt st.history j))) &&
+          sameObjSet (unspoil cache) (unspoil (viewAt j)) &&
           -- a spoiled key is either gone or as the server has it
-          cache.all (fun o => !spoiled.contains o.key || (viewOf st.filter (stateAt st.history j)).contains o))
+          cache.all (fun o => !spoiled.contains o.key || (viewAt j).contains o))
         -- after a stale list: per key, the cache holds what the server held for that key at some point
         let perKey := (st.stale || st.lossy) &&
           ((cache.map (·.key)) ++ (st.history.map (·.2.2.key))).eraseDups.all (fun k =>
             spoiled.contains k || (List.range (n + 1)).any (fun j =>
-              cache.find? (·.key == k) == (viewOf st.filter (stateAt st.history j)).find? (·.key == k)))
+              cache.find? (·.key == k) == (viewAt j).find? (·.key == k)))
         let candidates := if candidates0.isEmpty && perKey then [st.applied] else candidates0
         -- (a server without list versions restarts every watch "from now": only a list makes the cache current)
         let mustBeCurrent := ((live > 0 && !st.emptyRV && !st.lossy) || listedNow) && !st.inBurst
@@ -188,8 +197,11 @@ def ctrlLine (st : KState) (e : SExp) : KState × String :=
         -- per key a past state; such scenarios are judged at the completed lists (C03) and at readiness (C08)
         if st.emptyRV && !mustBeCurrent then ({ st1 with wasReady := true }, "ok") else
         -- C03/C05: no object ever goes back to an older version
+        -- (an object deleted in between may come back with whatever version a slow list carries: the cache keeps no
+        -- tombstones; the re-armed watch then replays its way forward again)
         let regressed := cache.find? (fun o => match (st.lastCache.getD []).find? (·.key == o.key) with
-          | some b => (oVer o).getD 0 < (oVer b).getD 0
+          | some b => (oVer o).getD 0 < (oVer b).getD 0 &&
+              !(st.history.any (fun e => e.2.1 == .delete && e.2.2.key == o.key && e.1 > (oVer b).getD 0))
           | none => false)
         if regressed.isSome then
           fail s!"reject C03/C05/C01 the cache went back to an older version: {showObjs ((regressed.map (fun o => [o])).getD [])} after {showObjs (st.lastCache.getD [])}"
